@@ -1527,7 +1527,17 @@ class C10(Property):
     def feat_cases(self, rng: random.Random, deep: bool) -> Iterator[Dict[str, Any]]:
         pool = [["note", ["motif found by another tool"]], ["locus_tag", ["extmotif1"]], ["protein_start", ["5"]], ["protein_end", ["9"]],
                 ["custom_key", ["x", "y"]], ["label", ["their_label"]], ["database", ["their db"]], ["translation", ["MAG"]],
-                ["zz_last", ["1"]], ["aSDomain", ["their name"]]]
+                ["zz_last", ["1"]], ["aSDomain", ["their name"]], ["domain_id", ["their id"]], ["evalue", ["1e-5"]]]
+        for _ in range(600 if deep else 100):
+            lo = rng.randrange(0, 200)
+            yield {"f": "feat", "kind": "cds", "loc": simple(lo, lo + 30, rng.choice([1, -1])), "notes": rng.sample(["n1", "n2"], rng.randint(0, 2)),
+                   "locus_tag": rng.choice([None, "ctg1_5"]), "protein_id": rng.choice([None, "WP_0001.1"]), "gene": rng.choice(["geneA", None, "gB"]),
+                   "product": rng.choice(["", "a hypothetical protein"]), "translation": "M" + "".join(rng.choice("ACDEF") for _ in range(9)),
+                   "transl_table": rng.choice([1, 11, 4]),
+                   "gene_functions": rng.sample([["biosynthetic", "rule-based-clusters", "PKS_KS", "T1PKS"], ["transport", "smcogs", "ABC transporter", None],
+                                                 ["other", "smcogs", "thing two", None]], rng.randint(0, 2)),
+                   "sec_met": rng.sample([["PKS_KS", 1.5e-20, 12.5, 25, "rule-based-clusters"], ["AMP-binding", 0.0, 100.0, 3, "rule-based-clusters"]],
+                                         rng.randint(0, 2))}
         for _ in range(600 if deep else 100):
             lo = rng.randrange(0, 200)
             yield {"f": "feat", "kind": "extmotif", "loc": simple(lo, lo + 9, rng.choice([1, -1])),
@@ -1560,6 +1570,33 @@ class C10(Property):
     @classmethod
     def observe_feat(cls, case: Dict[str, Any]) -> Dict[str, Any]:
         from Bio.SeqFeature import SeqFeature
+        if case["kind"] == "cds":
+            from antismash.common.secmet.features import CDSFeature
+            from antismash.common.secmet.qualifiers import GeneFunction, SecMetQualifier
+            cds = CDSFeature(common.make_location(case["loc"]), case["translation"], locus_tag=case["locus_tag"], protein_id=case["protein_id"],
+                             product=case["product"], gene=case["gene"], translation_table=case["transl_table"]) \
+                if (case["locus_tag"] or case["protein_id"] or case["gene"]) else None
+            if cds is None:
+                return {"err": "value-error"}
+            for fn, tool, desc, product in case["gene_functions"]:
+                cds.gene_functions.add(GeneFunction.from_string(fn), tool, desc, product)
+            if case["sec_met"]:
+                cds.sec_met = SecMetQualifier([SecMetQualifier.Domain(*d) for d in case["sec_met"]])
+            cds.notes.extend(case["notes"])
+            bio = cds.to_biopython()[0]
+            back = CDSFeature.from_biopython(SeqFeature(bio.location, type=bio.type, qualifiers={k: list(v) for k, v in bio.qualifiers.items()}))
+            state = {"feat": dump_feat(cds), "locus_tag": cds.locus_tag, "protein_id": cds.protein_id, "gene": cds.gene, "product": cds.product,
+                     "translation": cds.translation, "transl_table": cds.transl_table,
+                     "gene_functions": [{"fn": str(a.function), "tool": a.tool, "description": a.description, "product": a.product}
+                                        for a in cds.gene_functions],
+                     "sec_met": [{"name": d.name, "evalue": str(d.evalue), "bitscore": str(d.bitscore), "nseeds": str(d.nseeds), "tool": d.tool}
+                                 for d in cds.sec_met]}
+            return {"cds_state": state, "bio": {"loc": common.location_json(bio.location), "type": bio.type, "quals": qlist(bio.qualifiers)},
+                    "again": qlist(back.to_biopython()[0].qualifiers),
+                    "same": (back.locus_tag, back.protein_id, back.gene, back.product, back.translation, back.transl_table) ==
+                            (cds.locus_tag, cds.protein_id, cds.gene, cds.product, cds.translation, cds.transl_table) and
+                            list(map(str, back.gene_functions)) == list(map(str, cds.gene_functions)) and
+                            list(map(str, back.sec_met)) == list(map(str, cds.sec_met))}
         if case["kind"] == "extmotif":
             from antismash.common.secmet.features import CDSMotif
             from antismash.common.secmet.features.cds_motif import ExternalCDSMotif
@@ -1646,6 +1683,17 @@ class C10(Property):
 
     def judge_feat(self, case: Dict[str, Any], obs: Dict[str, Any], drv: Dict[str, Any]) -> Judgement:
         tags = ["feat:" + case["kind"]]
+        if case["kind"] == "cds":
+            if "err" in obs:
+                return Judgement(True, True, in_scope=False, tags=tuple(tags + ["nameless"]))
+            written = [{k: v for k, v in b.items() if k != "ls"} for b in drv["bio"].get("ok", [])]
+            problems = []
+            if written != [obs["bio"]]:
+                problems.append(f"written: model {drv['bio']} vs implementation {obs['bio']}")
+            if drv["same"] != obs["same"]:
+                problems.append(f"read back unchanged: model {drv['same']} ({drv['back_err']}) vs implementation {obs['same']}")
+            bad = [] if obs["same"] and obs["again"] == obs["bio"]["quals"] else ["the CDS or its second write changed"]
+            return Judgement(not problems, not bad, nontrivial=True, tags=tuple(tags), detail="; ".join(bad + problems)[:1200])
         if case["kind"] == "extmotif":
             corr = drv["quals"] == obs["quals"]
             bad = []
@@ -1791,6 +1839,8 @@ class C10(Property):
     def driver_line(self, case: Dict[str, Any], obs: Dict[str, Any]) -> Optional[Dict[str, Any]]:
         if case["f"] == "prepeptide":
             return dict(case, re=obs.get("re"))
+        if case["f"] == "feat" and case["kind"] == "cds":
+            return None if "cds_state" not in obs else dict(obs["cds_state"], f="feat", kind="cds")
         if case["f"] == "feat" and case["kind"] == "extmotif":
             return {"f": "feat", "kind": "extmotif", "written": obs["written"], "original": obs["original"]}
         if case["f"] == "feat":
